@@ -639,7 +639,9 @@ fn reduction_oracle(r: &Req, out: &str, kind: u8, reset: bool) -> Result<(), Str
         let (want, scale) = match kind {
             0 => ((0..m).map(|i| e(i, k)).sum::<f64>(), (0..m).map(|i| e(i, k).abs()).sum::<f64>()),
             1 => ((0..n).map(|j| e(k, j)).sum::<f64>(), (0..n).map(|j| e(k, j).abs()).sum::<f64>()),
-            2 => ((0..m).map(|i| e(i, k).abs()).fold(if reset { 0.0 } else { v0[k] }, f64::max), 0.0),
+            // max(norm, col_slice(k).norm_inf()): the inner maximum starts at 0 (matters for a negative
+            // incoming value and an empty column)
+            2 => (f64::max(if reset { 0.0 } else { v0[k] }, (0..m).map(|i| e(i, k).abs()).fold(0.0, f64::max)), 0.0),
             3 => ((0..n).map(|j| e(k, j).abs()).fold(if reset { 0.0 } else { v0[k] }, f64::max), 0.0),
             _ => {
                 // ∞-norm of column k of the symmetric matrix given by the upper triangle
@@ -691,8 +693,8 @@ fn oracle_quad_form(r: &Req, out: &str) -> Result<(), String> {
             scale += (y[i] * e * x[j]).abs();
         }
     }
-    if !(want.is_finite() && scale.is_finite()) {
-        return Ok(());
+    if !(want.is_finite() && scale.is_finite()) || amax(&a.2) > 1e100 || amax(&y) > 1e100 || amax(&x) > 1e100 {
+        return Ok(()); // partial sums overflow in one order and not in the other
     }
     if !close(got, want, 8.0 * scale) {
         return Err(format!("quad_form = {:e} expected yᵀ sym(A) x = {:e}", got, want));
@@ -1389,6 +1391,9 @@ fn oracle_svd_factor(r: &Req, out: &str) -> Result<(), String> {
         return Err(format!("singular values not non-negative descending: {:?}", s));
     }
     let nrm = amax(&da).max(f64::MIN_POSITIVE);
+    if nrm > 1e150 {
+        return Ok(()); // the reconstruction below would overflow
+    }
     let mut us = u.clone();
     for c in 0..k {
         for i in 0..m {
@@ -1497,7 +1502,8 @@ fn oracle_lu(r: &Req, out: &str) -> Result<(), String> {
     }
     let kind = r.str("kind");
     if code == "ok" {
-        if kind == "zerocol" {
+        // with no right-hand side the library returns at once (nothing to solve, A is not factorised)
+        if kind == "zerocol" && b.1 > 0 {
             return Err("lusolve succeeded on a matrix with a zero column".into());
         }
         let x = o.fs("b");
@@ -1663,7 +1669,7 @@ fn opnd_any(s: &mut Session, m: usize, n: usize, f: Fam, shapes: &[u8]) -> Opnd 
 }
 fn idx(s: &mut Session, bound: usize) -> usize {
     // mostly in range, sometimes the bound itself or beyond
-    if bound == 0 || s.rng.bool(0.15) { bound + s.rng.below(2) } else { s.rng.below(bound) }
+    if bound == 0 || s.rng.bool(0.06) { bound + s.rng.below(2) } else { s.rng.below(bound) }
 }
 fn coef(s: &mut Session, f: Fam) -> f64 {
     match s.rng.below(7) {
@@ -1718,13 +1724,16 @@ fn core_cases(s: &mut Session) {
     let k = if s.rng.bool(0.8) { m } else { s.rng.below(m + 3) };
     let v = vals(s, k, f);
     s.submit(put_opnd(Line::new("dense.col_slice_mut"), "a", &a).u("col", col).fs("vals", &v).done());
-    let bd = vals(s, if s.rng.bool(0.8) { m * n } else { s.rng.below(m * n + 3) }, f);
+    let bl = if s.rng.bool(0.8) { m * n } else { s.rng.below(m * n + 3) };
+    let bd = vals(s, bl, f);
     s.submit(Line::new("dense.borrowed_index").fs("d", &bd).u("m", m).u("n", n).u("i", i).u("j", j).done());
     s.submit(Line::new("dense.borrowed_col_slice").fs("d", &bd).u("m", m).u("n", n).u("col", col).done());
     // mutators
-    s.submit(put_opnd(Line::new("dense.set_identity"), "a", &a).done());
+    let sqa = if s.rng.bool(0.8) { opnd_any(s, n, n, f, NONLY) } else { a.clone() };
+    s.submit(put_opnd(Line::new("dense.set_identity"), "a", &sqa).done());
     let sl = view_len(&a);
-    let src = vals(s, if s.rng.bool(0.85) { sl } else { sl + 1 }, f);
+    let sl = if s.rng.bool(0.85) { sl } else { sl + 1 };
+    let src = vals(s, sl, f);
     s.submit(put_opnd(Line::new("dense.copy_from_slice"), "a", &a).fs("src", &src).done());
     // is_triu: random, exactly upper triangular, one lower entry (also NaN / -0)
     let mut t = opnd_any(s, m, n, f, NONLY);
@@ -1753,15 +1762,16 @@ fn core_cases(s: &mut Session) {
         opnd_any(s, sm, sn, f, ALL)
     };
     let (sr, sc) = vdims(&src);
+    let wild = s.rng.bool(0.2);
     let nr = s.rng.below(4);
     let nc = s.rng.below(4);
     // subsasgn: self[rows, cols] = S[0..nr, 0..nc]
-    let rows: Vec<usize> = (0..nr.min(sr + 1)).map(|_| idx(s, m)).collect();
-    let cols: Vec<usize> = (0..nc.min(sc + 1)).map(|_| idx(s, n)).collect();
+    let rows: Vec<usize> = (0..nr.min(sr + wild as usize)).map(|_| if m == 0 && !wild { 0 } else { idx(s, m) }).take(if m == 0 && !wild { 0 } else { 4 }).collect();
+    let cols: Vec<usize> = (0..nc.min(sc + wild as usize)).map(|_| if n == 0 && !wild { 0 } else { idx(s, n) }).take(if n == 0 && !wild { 0 } else { 4 }).collect();
     s.submit(put_opnd(put_opnd(Line::new("dense.subsasgn"), "a", &a), "s", &src).us("rows", &rows).us("cols", &cols).done());
     // subsref: self[0..nr, 0..nc] = S[rows, cols]
-    let rows: Vec<usize> = (0..nr.min(m + 1)).map(|_| idx(s, sr)).collect();
-    let cols: Vec<usize> = (0..nc.min(n + 1)).map(|_| idx(s, sc)).collect();
+    let rows: Vec<usize> = (0..nr.min(m + wild as usize)).map(|_| if sr == 0 && !wild { 0 } else { idx(s, sr) }).take(if sr == 0 && !wild { 0 } else { 4 }).collect();
+    let cols: Vec<usize> = (0..nc.min(n + wild as usize)).map(|_| if sc == 0 && !wild { 0 } else { idx(s, sc) }).take(if sc == 0 && !wild { 0 } else { 4 }).collect();
     s.submit(put_opnd(put_opnd(Line::new("dense.subsref"), "a", &a), "s", &src).us("rows", &rows).us("cols", &cols).done());
     // pack_triu: square, sometimes non-square source or wrong target length
     let pm = if s.rng.bool(0.8) { (m, m) } else { (m, n) };
@@ -1847,9 +1857,10 @@ fn math_cases(s: &mut Session) {
         let v0 = if ch.ends_with("no_reset") { vals(s, k, if f == Fam::Special { Fam::Special } else { Fam::Normal }) } else { vals(s, k, Fam::Int) };
         s.submit(put_mat(Line::new(ch), "a", &a).fs("v", &v0).done());
     }
+    let qa = if m == n || s.rng.bool(0.15) { a.clone() } else { owned(s, n, n, f) };
     let (ky, kx) = (wl(s, n), wl(s, n));
     let (y, x) = (vals(s, ky, f), vals(s, kx, f));
-    s.submit(put_mat(Line::new("dense.quad_form"), "a", &a).fs("y", &y).fs("x", &x).done());
+    s.submit(put_mat(Line::new("dense.quad_form"), "a", &qa).fs("y", &y).fs("x", &x).done());
     let c = if s.rng.bool(0.3) { special(s) } else { coef(s, f) };
     s.submit(put_mat(Line::new("dense.scale"), "a", &a).f("c", c).done());
     s.submit(put_mat(Line::new("dense.negate"), "a", &a).done());
@@ -1858,12 +1869,14 @@ fn math_cases(s: &mut Session) {
     s.submit(put_mat(Line::new("dense.lscale"), "a", &a).fs("l", &l).done());
     s.submit(put_mat(Line::new("dense.rscale"), "a", &a).fs("r", &r).done());
     s.submit(put_mat(Line::new("dense.lrscale"), "a", &a).fs("l", &l).fs("r", &r).done());
-    let sq = opnd_any(s, m, if s.rng.bool(0.9) { m } else { n }, f, NONLY);
+    let sqn = if s.rng.bool(0.9) { m } else { n };
+    let sq = opnd_any(s, m, sqn, f, NONLY);
     s.submit(put_opnd(Line::new("dense.symmetric_part"), "a", &sq).done());
     let kx = wl(s, tri(sq.n));
     let x = vals(s, kx, f);
     s.submit(put_opnd(Line::new("dense.svec_to_mat"), "a", &sq).fs("x", &x).done());
-    let mv = opnd_any(s, m, if s.rng.bool(0.9) { m } else { n }, f, ALL);
+    let mvn = if s.rng.bool(0.9) { m } else { n };
+    let mv = opnd_any(s, m, mvn, f, ALL);
     let kx = wl(s, tri(vdims(&mv).1));
     let x0 = vals(s, kx, Fam::Int);
     s.submit(put_opnd(Line::new("dense.mat_to_svec"), "a", &mv).fs("x", &x0).done());
@@ -2070,7 +2083,8 @@ fn chol_cases(s: &mut Session) {
     if res.is_ok() || n == 0 {
         let nrhs = s.rng.below(4);
         let bm = if s.rng.bool(0.85) { n } else if s.rng.bool(0.5) { n + 1 } else { n.saturating_sub(1) };
-        let bd = vals(s, bm * nrhs, if s.rng.bool(0.5) { Fam::Int } else { Fam::Normal });
+        let bf = if s.rng.bool(0.5) { Fam::Int } else { Fam::Normal };
+        let bd = vals(s, bm * nrhs, bf);
         let bo = as_opnd(s, bm, nrhs, bd);
         let mut e2 = hk::Chol::from_L(&l1);
         let lap = guarded_vec(|| slice_of(&bo, &e2.solve(&bo)));
@@ -2089,9 +2103,15 @@ fn eig_cases(s: &mut Session) {
     let n0 = if s.rng.bool(0.9) { n } else { n + 1 };
     let am = if s.rng.bool(0.93) { (n, n) } else { (n, n + 1) };
     let ad = if am == (n, n) { a } else { vals(s, am.0 * am.1, Fam::Normal) };
-    let ao = as_opnd(s, am.0, am.1, ad);
     let prev = s.rng.below(3);
-    let want = s.rng.bool(0.6);
+    let mut want = s.rng.bool(0.6);
+    // recorded observation C16-dense-eigen-nan-hang: ?syevr with jobz = 'V' never returns when the
+    // referenced triangle of an n >= 3 matrix holds a NaN (eigvals, jobz = 'N', returns NaN values)
+    if want && am == (n, n) && n >= 3 && (0..n).any(|j| (0..=j).any(|i| ad[i + n * j].is_nan())) {
+        want = false;
+        s.count("dense:eigen-nan-hang-avoided");
+    }
+    let ao = as_opnd(s, am.0, am.1, ad);
     let pa = if prev > 0 { sym_matrix(s, n0).0.iter().map(|x| if x.is_finite() { *x } else { 1.0 }).collect() } else { vec![] };
     let base = Line::new("dense.eig").u("n0", n0).u("prev", prev).fs("pa", &pa).b("want", want);
     let req0 = Req::parse(&put_opnd(base.clone(), "a", &ao).done()).unwrap();
@@ -2120,6 +2140,16 @@ fn svd_cases(s: &mut Session) {
         for j in 0..n {
             ad[1 + m * j] = 2.0 * ad[m * j];
         }
+    }
+    // recorded observation C16-dense-svd-inf-hang: ?gesdd and ?gesvd never return on a matrix with
+    // min(m, n) >= 3 that holds an infinite entry (a NaN is rejected / reported)
+    if m.min(n) >= 3 && ad.iter().any(|x| x.is_infinite()) {
+        for x in ad.iter_mut() {
+            if x.is_infinite() {
+                *x = f64::NAN;
+            }
+        }
+        s.count("dense:svd-inf-hang-avoided");
     }
     let ao = as_opnd(s, m, n, ad.clone());
     let qr = s.rng.bool(0.4);
@@ -2176,7 +2206,8 @@ fn lu_cases(s: &mut Session) {
         }
         _ => {
             // diagonally dominant: well conditioned
-            let mut a = vals(s, n * n, if s.rng.bool(0.5) { Fam::Int } else { Fam::Normal });
+            let af = if s.rng.bool(0.5) { Fam::Int } else { Fam::Normal };
+            let mut a = vals(s, n * n, af);
             for i in 0..n {
                 let rs: f64 = (0..n).map(|j| a[i + n * j].abs()).sum();
                 a[i + n * i] = (rs + 1.0) * if s.rng.bool(0.5) { 1.0 } else { -1.0 };
@@ -2193,7 +2224,8 @@ fn lu_cases(s: &mut Session) {
         a = vals(s, am.0 * am.1, Fam::Normal);
     }
     let amat: Mat = (am.0, am.1, a);
-    let bmat = owned(s, bm, nrhs, if s.rng.bool(0.5) { Fam::Int } else { Fam::Normal });
+    let bf = if s.rng.bool(0.5) { Fam::Int } else { Fam::Normal };
+    let bmat = owned(s, bm, nrhs, bf);
     let prev = if s.rng.bool(0.3) { 1 + s.rng.below(3) } else { 0 };
     let mut lu = lu_engine(prev);
     let (res, a1, b1) = lu.lusolve(&amat, &bmat);
